@@ -65,6 +65,10 @@ func BuildStaticWeightList(endpoints []endpoint.Endpoint) []int {
 		}
 	}
 
+	if maxWeight <= 0 {
+		// no endpoint has a positive weight: nothing to be proportional to
+		return nil
+	}
 	if minWeight > 0 {
 		maxRange = maxWeight / minWeight
 		if maxRange < minStaticWeightLimit {
@@ -79,7 +83,7 @@ func BuildStaticWeightList(endpoints []endpoint.Endpoint) []int {
 
 	var weightToId []pair
 	idToWeight := map[int]int{}
-	staticWeightRouterCache := make([]int, 0, totalCapacity+100)
+	staticWeightRouterCache := make([]int, 0, len(endpoints)*maxRange)
 	for idx, node := range endpoints {
 		weight := int(node.Weight) * maxRange / maxWeight
 		if weight > 0 {
